@@ -132,7 +132,7 @@ class ChildWorld:
         self.lib.engineexport_verif_set_loopcap.argtypes = [ctypes.c_longlong]
         self._cb = CLOCKFN(self.clock)
         self.hook_clock = self.lib.engineexport_verif_set_clock(self._cb)
-        self.hook_cap = self.lib.engineexport_verif_set_loopcap(int(self.case.get("loopcap", 3000000)))
+        self.hook_cap = self.lib.engineexport_verif_set_loopcap(int(self.case.get("loopcap", 300000)))
         lp = self.libpath
         engine_collection._get_engine_path = lambda: lp
         self.ec = engine_collection
